@@ -230,6 +230,28 @@ def run(ctx, mod):
     return out
 
 
+def add_slotg_stage(ctx, res, focus):
+    """the slot-variable-graph component (checks/slotg.py, model lean/Sigc/SlotG.lean, docs/SLOTG.md): object graphs
+    among slot *variables* — connection(slot_base&), slots with a parent through std::ref, self-owning cycles — which the
+    signal-centred language cannot express; merged into the property's correspondence"""
+    try:
+        import slotg
+        sub = slotg.stage(ctx, focus)
+        res["evaluations"] += sub.get("evaluations", 0)
+        res["distinct_nontrivial"] += sub.get("distinct_nontrivial", 0)
+        res["traces_validated_against_impl"] = res.get("traces_validated_against_impl", 0) + sub.get("traces_validated_against_impl", 0)
+        res["distribution"]["slot_variable_graphs_SlotG"] = {
+            "focus": focus, "evaluations": sub.get("evaluations", 0), "distinct_nontrivial": sub.get("distinct_nontrivial", 0),
+            "rule": sub.get("rule", ""), "distribution": sub.get("distribution", {})}
+        res["samples"] = res.get("samples", []) + sub.get("samples", [])[:1]
+        res["monitor_failures"] += sub.get("monitor_failures", [])
+        res["disagreements"] += sub.get("disagreements", [])
+        res["infra_errors"] += sub.get("infra_errors", [])
+    except Exception as e:
+        res["infra_errors"].append("SlotG stage crashed: %r" % (e,))
+    return res
+
+
 def search(ctx, mod, disagreements):
     """mutate around diverging programs looking for one whose implementation trace violates the spec"""
     exe, log = runtime.build_main_harness()
